@@ -14,6 +14,7 @@ import NutsProofs.Lemmas.C07LiveO
 import NutsProofs.Lemmas.C07IbltB
 import NutsProofs.Lemmas.C07Disp
 import NutsProofs.Lemmas.C07Addr
+import NutsProofs.Lemmas.C07ConvLock
 open Nuts.Proto Nuts Nuts.Proto.L Nuts.Proto.Live Nuts.C07.Ex
 
 namespace Nuts.C07.Props
@@ -846,5 +847,48 @@ example : sendGossip [{ peer := ⟨"a", "did:nuts:x", "a:1"⟩, connected := tru
     = { target := some 2, cleared := false } := by decide
 
 end AddrProps
+
+/-! ### Deepening round 3: every method of the conversation manager releases `cMan.mutex` on every exit -/
+
+namespace ConvLockProps
+open Nuts.Proto.ConvLock
+
+/-- regenerated (conversation.go, every method of `conversationManager`): the methods, and for each the executable lock check —
+    mutex calls only as statements of the method body, `Lock` paired with a deferred `Unlock` (`RLock` / `RUnlock` in `check`),
+    nothing held at any `return` nor at the end of the body -/
+theorem fact_conversation_lock_discipline :
+    Facts.C07.convLockEvents.all (fun m => methodOK m.2) = true ∧
+    Facts.C07.convLockEvents.map (·.1) = ["check", "done", "evict", "hasActiveConversation", "resetTimeout", "start", "startConversation"] ∧
+    (Facts.C07.convLockEvents.filter (fun m => m.2.any (fun e => isMutexEv (evOf e.2)))).map (·.1) =
+      ["check", "done", "evict", "resetTimeout", "startConversation"] := by decide
+
+/-- **A refused request, an unknown conversation, a failed response check … never leave the conversation manager locked.**
+    For every method of the real `conversationManager` (regenerated event list) and EVERY exit point of it — each `return`,
+    however deeply nested, and the end of the body — the mutex counters (writer, reader) are zero once the deferred calls
+    ran, given all mutex events before that point were executed; and all mutex events are unconditional statements of the
+    method body, so they ARE executed on every path reaching that point. -/
+theorem conversation_manager_releases_lock_on_every_exit :
+    ∀ m ∈ Facts.C07.convLockEvents, ∀ pre post, m.2.map (fun x => (x.1, evOf x.2)) = pre ++ post →
+      (post = [] ∨ ∃ d rest, post = (d, LEv.ret) :: rest) →
+      heldAtExit (stateAfter {} pre) = (0, 0) ∧ ∀ x ∈ pre, isMutexEv x.2 = true → x.1 = 0 := by
+  intro m hm pre post hsplit hexit
+  have hall := fact_conversation_lock_discipline.1
+  have hok : methodOK m.2 = true := (List.all_eq_true.mp hall) m hm
+  obtain ⟨hb, hd⟩ := ok_every_exit _ _ hok pre post hsplit hexit
+  exact ⟨by simpa [balanced] using hb, hd⟩
+
+/-- **Why the deferred unlock matters**: a `startConversation` that locks, returns nil on the refusal path and unlocks only
+    at the end of the accepting path (lock; if … return; unlock; return) fails the check, and its refusal exit holds the
+    writer lock — the next `startConversation` / `check` / `done` of the node blocks forever. -/
+theorem refusal_without_unlock_keeps_manager_locked :
+    methodOK [(0, "Lock"), (2, "return"), (0, "Unlock"), (0, "return")] = false ∧
+    heldAtExit (stateAfter {} [(0, LEv.lock false)]) = (1, 0) := by decide
+
+/-- non-vacuity: `startConversation` is among the regenerated methods and has a nested refusal exit after Lock + defer -/
+example : ("startConversation", [(0, "Lock"), (0, "defer Unlock"), (2, "return"), (0, "return")]) ∈ Facts.C07.convLockEvents := by decide
+example : ([(0, "Lock"), (0, "defer Unlock"), (2, "return"), (0, "return")] : List (Nat × String)).map (fun x => (x.1, evOf x.2)) =
+    [(0, LEv.lock false), (0, LEv.deferUnlock false)] ++ [(2, LEv.ret), (0, LEv.ret)] := by decide
+
+end ConvLockProps
 
 end Nuts.C07.Props
